@@ -117,6 +117,8 @@ enum Mut {
 	PPNoSig,
 	PPResign(bool),            // signed by another wallet's address key; true: its address put in as well
 	PPOver(i64, bool, bool),   // right key, over amount+d / another excess / another sender address
+	/// the reply announces amount+d in its amount field and carries the recipient's signature over that amount
+	PPOverAnnounce(i64),
 	PPSaddr,
 	PPRaddr,
 	PPAdd,
@@ -228,6 +230,7 @@ impl Mut {
 			Mut::PPNoSig => json!(["PPNoSig"]),
 			Mut::PPResign(b) => json!(["PPResign", b]),
 			Mut::PPOver(d, e, x) => json!(["PPOver", d, e, x]),
+			Mut::PPOverAnnounce(d) => json!(["PPOverAnnounce", d]),
 			Mut::PPSaddr => json!(["PPSaddr"]),
 			Mut::PPRaddr => json!(["PPRaddr"]),
 			Mut::PPAdd => json!(["PPAdd"]),
@@ -287,6 +290,7 @@ impl Mut {
 			"PPNoSig" => Mut::PPNoSig,
 			"PPResign" => Mut::PPResign(b(1)),
 			"PPOver" => Mut::PPOver(i(1), b(2), b(3)),
+			"PPOverAnnounce" => Mut::PPOverAnnounce(i(1)),
 			"PPSaddr" => Mut::PPSaddr,
 			"PPRaddr" => Mut::PPRaddr,
 			"PPAdd" => Mut::PPAdd,
@@ -347,6 +351,7 @@ impl Mut {
 			Mut::PPNoSig => "MPPNoSig".into(),
 			Mut::PPResign(b) => format!("(MPPResign {}%Z {})", ADDR_R2, b),
 			Mut::PPOver(d, e, x) => format!("(MPPOver {} {} {})", z(*d), e, x),
+			Mut::PPOverAnnounce(d) => format!("(MPPOverAnnounce {})", z(*d)),
 			Mut::PPSaddr => format!("(MPPSaddr {}%Z)", ADDR_R2),
 			Mut::PPRaddr => format!("(MPPRaddr {}%Z)", ADDR_R2),
 			Mut::PPAdd => format!("(MPPAdd {}%Z)", ADDR_R),
@@ -521,6 +526,8 @@ fn pp_catalogue() -> Vec<Mut> {
 		Mut::PPOver(-1, false, false),
 		Mut::PPOver(0, true, false),
 		Mut::PPOver(0, false, true),
+		Mut::PPOverAnnounce(-1000),
+		Mut::PPOverAnnounce(7),
 		Mut::PPSaddr,
 		Mut::PPRaddr,
 	]
@@ -1395,6 +1402,14 @@ fn apply_mut(
 			let pr = v.proof.as_mut()?;
 			let sa = if *os { pp.other.public } else { pr.saddr };
 			pr.rsig = Some(pp.counter.sign(&pp_msg((pp.amount as i64 + d) as u64, &ex, &sa)));
+		}
+		Mut::PPOverAnnounce(d) => {
+			let ex = pp.excess_for(&v)?;
+			let n = (pp.amount as i64 + d) as u64;
+			v.amt = n;
+			let pr = v.proof.as_mut()?;
+			let sa = pr.saddr;
+			pr.rsig = Some(pp.counter.sign(&pp_msg(n, &ex, &sa)));
 		}
 		Mut::PPSaddr => v.proof.as_mut()?.saddr = pp.other.public,
 		Mut::PPRaddr => v.proof.as_mut()?.raddr = pp.other.public,
